@@ -1694,6 +1694,10 @@ class Interp(object):
             r = self.cmp1(op, left, right, n)
             if isinstance(r, SArr) and len(n.ops) == 1:
                 return r
+            if getattr(r, 'is_array_value', False):
+                if len(n.ops) == 1:
+                    return r            # elementwise comparison of arrays
+                r = self.truth_value(r, n)
             if isinstance(r, _Cond):
                 if len(n.ops) == 1:
                     return r
